@@ -131,6 +131,19 @@ class Stack(Part):
                     got = ("missing",)
                 except Exception as e:  # noqa
                     raise SutError(e)
+                if got == want and want == ("missing",) and name in BAD[:2]:
+                    # the keyword-only default: a name that does not resolve falls back to the default, which is itself resolved through the theme stack
+                    for dflt in ("warning", "bold", "a.b"):
+                        want_d = expected(dflt)
+                        try:
+                            got_d = ("style", GS.style_view(con.get_style(name, default=dflt)))
+                        except MissingStyle:
+                            got_d = ("missing",)
+                        except Exception as e:  # noqa
+                            raise SutError(e)
+                        if got_d != want_d:
+                            ctx.violation("lookup", "C20/lookup/default-%s" % where.split(":")[0], "after %s: get_style(%r, default=%r) -> %r, expected what get_style(%r) gives: %r" % (where, name, dflt, got_d, dflt, want_d))
+                            return False
                 if got != want:
                     kind = "name" if name in NAMES else ("definition" if name in DEFINITIONS else ("cased" if name in CASED else "unparseable"))
                     ctx.violation("lookup", "C20/lookup/%s-%s" % (kind, where.split(":")[0]), "after %s: get_style(%r) -> %r, expected %r (stack depth %d)" % (where, name, got, want, len(stack)))
@@ -287,6 +300,19 @@ class Config(Part):
         try:
             bare = Theme.from_file(io.StringIO(text), inherit=False)
             if not same(theme, bare, "incomplete-text"):
+                return
+            import os
+            import tempfile
+
+            fd, path = tempfile.mkstemp(prefix="vp_c20_", suffix=".ini")
+            try:
+                with os.fdopen(fd, "w", encoding="utf-8") as fh:
+                    fh.write(text)
+                from_path = Theme.read(path, inherit=spec["inherit"])
+                from_path_bare = Theme.read(path, inherit=False)
+            finally:
+                os.unlink(path)
+            if not same(theme, from_path, "read-path") or not same(theme, from_path_bare, "read-path-without-inheriting"):
                 return
             text2 = back.config
             again = Theme.from_file(io.StringIO(text2), inherit=False)
